@@ -234,7 +234,8 @@ func (g *Graph) OnSuccessOf(h Hit, loc Loc) (ok bool, why string) {
 // atomB carries the block of the condition as well.
 type atomB struct {
 	Atom
-	Blk *cfg.Block
+	Blk  *cfg.Block
+	Edge bool // which edge of Blk's condition is known to have been taken
 }
 
 // Atoms2 is AtomsAt with the condition's block retained.
@@ -242,7 +243,7 @@ func (g *Graph) Atoms2(loc Loc) []atomB {
 	var out []atomB
 	for _, f := range g.Facts(loc) {
 		for _, a := range Atoms([]Fact{f}) {
-			out = append(out, atomB{a, f.Blk})
+			out = append(out, atomB{a, f.Blk, f.Val})
 		}
 	}
 	return out
